@@ -24,6 +24,7 @@ THEOREMS = [
     "Nix.C03.duplicate_refused_section_root",
     "Nix.C03.duplicate_refused_section",
     "Nix.C03.duplicate_refused_in",
+    "Nix.C03.duplicate_refused_frame",
     "Nix.C03.duplicate_refused_property",
     "Nix.C03.reachable_wf",
     "Nix.C03.step_wf",
@@ -31,13 +32,24 @@ THEOREMS = [
     "Nix.C03.names_unique_reachable",
     "Nix.C03.ids_unique_reachable",
     "Nix.C03.id_fresh",
-    "Nix.C03.id_stable_partial",
+    "Nix.C03.id_stable_wf",
+    "Nix.C03.id_stable",
+    "Nix.C03.id_stable_x",
     "Nix.C03.order_after_delete",
     "Nix.C03.link_append_last",
     "Nix.C03.link_unlink_keeps_rest",
     "Nix.C03.legal_name_accepted_block",
+    "Nix.C03.acceptedAs_of_created",
+    "Nix.C03.legal_name_accepted_in",
+    "Nix.C03.legal_name_accepted_frame",
+    "Nix.C03.legal_name_accepted_section",
+    "Nix.C03.other_kinds_untouched_frame",
+    "Nix.C03.other_kinds_untouched_in",
     "Nix.C03.legal_name_accepted_partial",
     "Nix.C03.demo_reachable",
+    "Nix.C03.demoX_reachable",
+    "Nix.C03.dispatch_agrees_on_pool",
+    "Nix.C03.pool_uuidish",
 ]
 ASSUMPTIONS = [
     "HDF5 groups with creation-order tracking enumerate links in creation order, also after deletions and reopen "
@@ -45,32 +57,44 @@ ASSUMPTIONS = [
     "uuid4 ids are drawn from an abstract fresh supply (model ids id:0, id:1, ...): the reachable-state theorems "
     "quantify over histories in which no call names its new entity with an id still to be drawn (Op.Fresh / "
     "FreshHist in Lemmas/StoreWF.lean); names equal to ids already in the file are allowed",
-    "uuid.UUID(str) acceptance is modelled for plain / hyphenated / braced / urn:uuid: forms (the generators' domain)",
+    "the id / name dispatch of the structural model (Store.pyIsUuid) covers plain / hyphenated / braced / urn:uuid: "
+    "spellings; the complete uuid.UUID(text) acceptance is Py.uuidAccepts (Unicode 15.0 decimal digits / white space "
+    "as in CPython 3.12), pinned by the correspondence; both agree on the generators' name pool",
 ]
-TRUSTED_EXTRA = ["harness/lib/storeimpl.py + storegen.py (path addressing by iteration, HDF5-level dump with h5py)"]
+TRUSTED_EXTRA = ["harness/lib/storeimpl.py + storegen.py + props/c03_gen.py (path addressing by iteration, HDF5-level dump with h5py)"]
 READY = True
 MANIFEST = {
     "level_text": "Kernel-checked theorems over a Lean model of the HDF5 object graph under a NIX file and of nixio's "
-                  "container API (container.py, h5group.py, entity/block/section/source/tag/feature create paths). "
-                  "An invariant WF (unique keys, link targets exist, link names unique per group, ids handed out by the "
-                  "supply and pairwise distinct, container typing: entries of owning containers are named by the "
-                  "entity's name, entries of link lists by its id) is proved for the empty file and preserved by every "
-                  "API operation (one lemma per function, unbounded induction over histories: reachable_wf). On every "
-                  "reachable graph: positional indexing (incl. negative), lookup by name, lookup by id, membership by "
-                  "name / id / entity all denote the same entry of the creation-ordered link list "
-                  "(views_agree_reachable); names and ids are unique; duplicates are refused by every create function; "
-                  "a legal block name is accepted, appended last, gets a fresh id, and delete-by-name restores the list; "
-                  "deleting from a plain container removes exactly the addressed entry and keeps the order of the rest; "
-                  "link-list append puts the entry last (re-append moves it to the end), unlink keeps the rest. The "
-                  "model is hand-written and tied to the code by differential execution of random create/link/delete "
-                  "histories (every access path queried after every step, HDF5-level graph dumps compared).",
+                  "container API (container.py, h5group.py, entity/block/section/source/tag/feature create paths, "
+                  "create_data_frame included: Store/Frames.lean). An invariant WF (unique keys, link targets exist, "
+                  "link names unique per group, ids handed out by the supply and pairwise distinct, container typing: "
+                  "entries of owning containers are named by the entity's name, entries of link lists by its id) is "
+                  "proved for the empty file and preserved by every API operation (one lemma per function, unbounded "
+                  "induction over histories: reachable_wf over ReachableFreshX). On every reachable graph: positional "
+                  "indexing (incl. negative), lookup by name, lookup by id, membership by name / id / entity all denote "
+                  "the same entry of the creation-ordered link list (views_agree_reachable); names and ids are unique; "
+                  "duplicates are refused by every create function, each looking into its own container only; ids never "
+                  "change under any operation (id_stable, id_stable_x); an accepted create call of any kind (blocks, "
+                  "sections at any depth, groups, arrays, frames, tags, multi tags, sources at any depth) appends the "
+                  "entity last under its name with a fresh id, addressable by position / name / id / entity, delete-by-"
+                  "name restores the list (AcceptedAs: legal_name_accepted_block/_in/_frame/_section), and leaves the "
+                  "other containers of the same parent untouched (other_kinds_untouched_*: names are unique per kind); "
+                  "deleting from a plain container removes exactly the addressed entry and keeps the order of the "
+                  "rest; link-list append puts the entry last (re-append moves it to the end), unlink keeps the rest. "
+                  "The model is hand-written and tied to the code by differential execution of random create / link / "
+                  "delete histories (every access path queried after every step, HDF5-level graph dumps compared, names "
+                  "colliding with the same kind and with other kinds drawn on purpose); uuid.UUID(text) acceptance has a "
+                  "complete model (Py/UuidText.lean) pinned against nixio.util.is_uuid over generated spellings, and the "
+                  "dispatch function of the structural model agrees with it on the histories' name pool "
+                  "(dispatch_agrees_on_pool).",
     "level_note": "Trusted: Lean kernel; standard axioms; the correspondence harness; h5py/HDF5 link semantics "
                   "(creation-order iteration, hard links) are modelled, not verified; uuid4 freshness is an explicit "
-                  "hypothesis (Op.Fresh). Partial: legal_name_accepted is packaged as one statement for create_block "
-                  "only (for the other create functions: invariant preservation + the view theorems on the resulting "
-                  "state; full statement kept as def LegalNameAcceptedEverywhere); id stability is proved for "
-                  "create_block / create_section / del / append / attribute setters / reopen (def IdStable is the full "
-                  "statement); order_after_delete covers plain containers and link lists, not the subtree deletion of "
+                  "hypothesis (OpX.Fresh). Partial: acceptance is proved with the success of the call as a hypothesis "
+                  "for create_group/array/tag/multi_tag/source/frame/section (for create_block the success itself is "
+                  "proved from the legality of the name); properties have duplicate_refused_property, the invariant and "
+                  "id stability, but no AcceptedAs packaging; create_multi_tag with raw positions / extents "
+                  "(auto-created arrays, createMultiTagAuto) is in the model and the correspondence, not in the proved "
+                  "histories; order_after_delete covers plain containers and link lists, not the subtree deletion of "
                   "sections / sources. Open finding: an entity *named* with the id of a sibling is shadowed by that "
                   "sibling in by-name lookup (ids are tried first) — the one hypothesis left in views_agree_reachable.",
 }
